@@ -17,10 +17,12 @@ class Tripper:
     # clean-up (the restoring update_parameters call in a finally block) cannot be defended against
     METHODS = ("get_args_time_course", "get_right_hand_side_time_course", "get_stoichiometries_of_variable")
 
-    def __init__(self, model, k: int) -> None:  # noqa: ANN001
+    def __init__(self, model, k: int, methods: tuple[str, ...] | None = None) -> None:  # noqa: ANN001
         self.model = model
         self.left = int(k)
         self.fired = False
+        if methods is not None:
+            self.METHODS = tuple(methods)
 
     def __enter__(self):  # noqa: ANN204
         # (Model uses __slots__: the seam is installed on the class for the armed window and
